@@ -199,7 +199,10 @@ class Gen:
             return "setBoolParam %d %d" % (self.BP[r.choice(names)], r.choice([0, 1, 1, 2, -1, 7]))
         if k < 9:
             name = r.choice(sorted(REAL_VALUES))
-            return "setRealParam %d %s" % (self.RP[name], dy(r.choice(REAL_VALUES[name])))
+            vals = REAL_VALUES[name]
+            if solved and name in ("FEASTOL", "OPTTOL"):
+                vals = [v for v in vals if v != 0.0]      # zero tolerances switch SOLVEMODE_AUTO to a rational solve (see above)
+            return "setRealParam %d %s" % (self.RP[name], dy(r.choice(vals)))
         return "getIntParam %d" % r.randrange(self.IP["INTPARAM_COUNT"])
 
     def query(self):
@@ -546,6 +549,10 @@ def judge(case, hl, ml, stderr=""):
             continue
         c, x = d.get("c", "-"), d.get("x", "-")
         exc = d.get("exc")
+        if exc and exc.startswith("XSIGNAL"):
+            # the C++ member faulted on the mirror object before the C function was called: not attributable to the wrapper
+            out.append(("@cpp-member-faults:" + op, "C++ member behind SoPlex_%s faults on its own (%s), pre=%s" % (op, exc, d.get("pre")), j))
+            break
         if exc:
             if op == "getRowVectorRational" and exc.startswith("SIGNAL") and d.get("rowlen", "0") != "0":
                 out.append(("rowvector-rational-null-write", "SoPlex_getRowVectorRational faults (%s) on a row with %s non-zeros "
@@ -594,6 +601,9 @@ def judge(case, hl, ml, stderr=""):
             else:
                 out.append(("ret-mismatch:" + op, "SoPlex_%s returned %s, the C++ call %s (args %s)" % (op, c[:300], x[:300], d.get("args", "")[:200]), j))
         # (b) state of the two objects
+        if d.get("eq", "").startswith("DUMPX"):
+            out.append(("@cpp-getter-faults-after:" + op, "a C++ getter faults on the mirror object after %s (%s), pre=%s" % (op, d["eq"], d.get("pre")), j))
+            break
         if d.get("eq", "").startswith("DUMP"):
             out.append(("cpp-getter-fault-after:" + op, "after SoPlex_%s(%s) a C++ getter used for the comparison faults (%s); pre=%s" % (
                 op, d.get("args", "")[:100], d["eq"], d.get("pre")), j))
@@ -682,6 +692,7 @@ def main():
             ck.violation("asan-build", "sanitizer build failed: %s" % str(e)[-800:], {"kind": "build"}, no_input=True)
 
     shrunk = set()
+    side = {}
     for tag, rn in runs:
         res, errs = rn.run_all(cases)
         rcm, mres, merr = rn.model_run(cases, res)
@@ -700,9 +711,15 @@ def main():
                         p = d["pre"].split(",")
                         ck.count("state:%s%s%s" % ("sol" if p[2] == "1" else "nosol", "+rat" if p[3] == "1" else "", "+scaled" if p[4] == "1" else ""))
                 if len(hl) < len(c["ops"]) and not any(("exc" in d or "process" in d or d.get("c", "").startswith(("EXC", "SPXEXC"))
-                                                        or d.get("x", "").startswith(("EXC", "SPXEXC"))) for d in hl):
+                                                        or d.get("x", "").startswith(("EXC", "SPXEXC")) or d.get("eq", "").startswith("DUMP")) for d in hl):
                     ck.violation("short-output", "harness produced fewer transcript lines than calls", {"case": c})
             for sig, what, j in fs:
+                if sig.startswith("@"):
+                    # side observation about the C++ library itself (same fault without the C layer): recorded, not a C20 violation
+                    if tag == "g++":
+                        ck.count("side:" + sig[1:])
+                        side.setdefault(sig[1:], {"what": what, "ops": c["ops"][:j + 1]})
+                    continue
                 case = {"ops": c["ops"][:j + 1] if j >= 0 else c["ops"], "risky": True}
                 first = ck.violation(sig, "[%s build] %s" % (tag, what), {"case": case, "observed": [d.get("raw", str(d)) for d in hl[max(0, j - 1):j + 1]],
                                                                        "correspondence": "SoPlex_* on the C object vs intended C++ call on a mirror SoPlexBase<double>; extracted CIfaceModel conversions/footprints",
@@ -718,6 +735,7 @@ def main():
                 ck.sample({"ops": c["ops"][:6]})
         rn.cleanup()
 
+    ck.cov["side_observations_cpp_library"] = side
     ck.cov["rule"] = ("a case is one C call with its resolved raw arguments, executed on the C object and mirrored on a C++ object inside a random "
                       "call sequence (all 56 C functions; dimension arguments equal to, larger and smaller than the LP where the C++ contract allows; "
                       "zero sizes and nonzero hints; rational pairs with negative numerators/denominators, denominator 1); non-trivial = executed "
